@@ -126,7 +126,7 @@ def gen_program(rng, files=True):
         elif r < 0.92 and files:
             if fileopen is None:
                 fileopen = 'F%d' % rng.randrange(1, 3)
-                add('OPEN "%s" FOR OUTPUT AS #1' % fileopen)
+                add('OPEN "%s" FOR %s AS #1' % (fileopen, rng.choice(['OUTPUT', 'OUTPUT', 'APPEND'])))
                 add('PRINT#1,%s:WRITE#1,%s,%s' % (_expr(rng), _expr(rng), _sexpr(rng)))
             else:
                 add('PRINT#1,%s;%s' % (_sexpr(rng), _expr(rng)))
@@ -152,6 +152,81 @@ def gen_program(rng, files=True):
         add('E9=E9+1:PRINT "E";ERR;ERL')
         add('IF E9>12 THEN END')
         add(rng.choice(['RESUME NEXT', 'RESUME NEXT', 'PRINT "h":RESUME NEXT']))
+    return lines
+
+
+def gen_file_program(rng):
+    """Programs that are file histories: every kind of open file (OUTPUT, APPEND, INPUT, RANDOM) in every state a
+    suspension can find it in - just opened and still empty (new file, existing zero-length file, existing file with
+    contents), after some writes/reads, at EOF - followed by a read-back of every file through BASIC, so that stray
+    bytes (EOF markers) show up in the output as well as in the file comparison."""
+    lines = []
+    n = [10]
+
+    def add(text):
+        lines.append((n[0], text))
+        n[0] += 10
+
+    add('ON ERROR GOTO 9000')
+    names = ['FA', 'FB']
+    exists = {}          # name -> 'empty' | 'data'
+    opened = {}          # number -> (name, mode)
+    # some files exist beforehand: zero-length (OUTPUT + CLOSE leaves only the EOF byte, which APPEND cuts off) or with data
+    for nm in names:
+        r = rng.random()
+        if r < 0.3:
+            add('OPEN "%s" FOR OUTPUT AS #1:CLOSE #1' % nm)
+            exists[nm] = 'empty'
+        elif r < 0.55:
+            add('OPEN "%s" FOR OUTPUT AS #1:PRINT#1,"old %s":CLOSE #1' % (nm, nm))
+            exists[nm] = 'data'
+    for _ in range(rng.randrange(4, 10)):
+        free = [k for k in (1, 2, 3) if k not in opened]
+        closed = [nm for nm in names if nm not in [v[0] for v in opened.values()]]
+        r = rng.random()
+        if r < 0.40 and free and closed:
+            num, nm = rng.choice(free), rng.choice(closed)
+            modes = ['APPEND', 'APPEND', 'OUTPUT', 'RANDOM']
+            if nm in exists:
+                modes += ['INPUT', 'INPUT']
+            mode = rng.choice(modes)
+            if mode == 'RANDOM':
+                add('OPEN "%s" AS #%d LEN=8:FIELD #%d,8 AS R$' % (nm, num, num))
+            else:
+                add('OPEN "%s" FOR %s AS #%d' % (nm, mode, num))
+            opened[num] = (nm, mode)
+            if mode != 'INPUT':
+                exists.setdefault(nm, 'empty')
+            if mode == 'OUTPUT':
+                exists[nm] = 'empty'
+        elif r < 0.75 and opened:
+            num = rng.choice(sorted(opened))
+            nm, mode = opened[num]
+            if mode in ('APPEND', 'OUTPUT'):
+                add(rng.choice(['PRINT#%d,"w%d";N%%' % (num, rng.randrange(100)), 'WRITE#%d,N%%,"q"' % num,
+                                'PRINT#%d,"a";:PRINT#%d,"b"' % (num, num)]))
+                exists[nm] = 'data'
+            elif mode == 'INPUT':
+                add('IF NOT EOF(%d) THEN LINE INPUT#%d,L$:PRINT "r:";L$' % (num, num))
+            else:
+                rec = rng.randrange(1, 4)
+                add(rng.choice(['LSET R$="rec%d":PUT #%d,%d' % (rec, num, rec), 'GET #%d,%d:PRINT "g:";R$' % (num, rec),
+                                'LSET R$="nxt":PUT #%d' % num]))
+                exists[nm] = 'data'
+        elif r < 0.88 and opened:
+            num = rng.choice(sorted(opened))
+            add('CLOSE #%d' % num)
+            del opened[num]
+        else:
+            add('N%=N%+1')
+    add('CLOSE')
+    for nm in names:
+        add('OPEN "%s" FOR INPUT AS #3' % nm)
+        add('WHILE NOT EOF(3):LINE INPUT#3,L$:PRINT "%s:";L$:WEND:CLOSE #3' % nm)
+    add('PRINT "end";N%:END')
+    n[0] = 9000
+    add('E9=E9+1:PRINT "E";ERR;ERL:IF E9>20 THEN END')
+    add('RESUME NEXT')
     return lines
 
 
@@ -340,7 +415,7 @@ class C40(core.Check):
     ID = 'C40'
     GEN = ['gen_state']
     PROPS = 'props/C40.v'
-    MODEL_IMPORTS = ['gen.Gen_state', 'model.Crc32', 'model.StateFile', 'model.Resume']
+    MODEL_IMPORTS = ['gen.Gen_state', 'model.Crc32', 'model.StateFile', 'model.Resume', 'model.ReopenFile']
     QUICK_CASES = 700
     THOROUGH_CASES = 6000
     PARTIAL = ('resume clause: proved only in the code-pointer model (Interpreter.__setstate__ repositioning over '
@@ -351,7 +426,9 @@ class C40(core.Check):
     TRUSTED = ['CRC-32 model model/Crc32.v tied to zlib.crc32 by correspondence; file framing model/StateFile.v: '
                'checks regenerated from state.py (gen_state), read/unpack/pack glue hand-modelled, shape-checked '
                'by the generator and tied by correspondence on real files; model/Resume.v (skip_to, __setstate__) '
-               'hand-modelled, token constants regenerated, tied by correspondence of resumed code pointers',
+               'hand-modelled, token constants regenerated, tied by correspondence of resumed code pointers; '
+               'model/ReopenFile.v (unpickle_file on an existing named file) hand-modelled, tied by correspondence '
+               'with the real function on real files',
                'pickle.loads / zlib.decompress / pickle.dumps / zlib.compress: unmodelled (Section variables)']
     RULE = ('crc: random byte strings vs zlib.crc32, one changed byte must change the CRC; file: real save_session '
             'files of small objects, every byte position altered (+ truncations, re-checksummed variants) through '
@@ -359,7 +436,12 @@ class C40(core.Check):
             'all (thorough) / sampled (quick) byte positions must be rejected; resume: generated programs '
             'suspended through a QUIT signal at every statement boundary, resumed from the file in a fresh Session '
             'object, output+variables+screen+files compared with the uninterrupted run (testing), resumed code '
-            'pointer compared with the model; mid/redo: suspension inside SYSTEM / INPUT. non-trivial = at least '
+            'pointer compared with the model; files: generated file histories (OUTPUT/APPEND/INPUT/RANDOM on new, '
+            'zero-length and filled files, suspended in every state incl. just opened and still empty, read back '
+            'through BASIC); reopen: state.pickle_file/unpickle_file on real files (contents of any length incl. '
+            'empty, any position incl. -1/0/beyond the end, bytes appended at shutdown) vs model/ReopenFile.v, oracle: '
+            'writes/reads after re-opening continue where they stopped; mid/redo: suspension inside SYSTEM / INPUT. '
+            'non-trivial = at least '
             'one alteration or suspension point exercised')
     histogram = None
 
@@ -385,6 +467,24 @@ class C40(core.Check):
             {'k': 'resume', 'p': [[10, 'OPEN "F1" FOR OUTPUT AS #1:PRINT#1,"one"'], [20, 'PRINT#1,"two":CLOSE'],
                                   [30, 'OPEN "F1" FOR INPUT AS #1:LINE INPUT#1,A$:PRINT A$'],
                                   [40, 'LINE INPUT#1,B$:PRINT B$:CLOSE']]},
+            # D40b witness and its boundary (seeded change C40c): APPEND file still empty when suspended
+            {'k': 'resume', 'p': [[100, 'CLOSE #2:OPEN "F2" FOR APPEND AS #1']]},
+            {'k': 'resume', 'p': [[10, 'OPEN "LOG.TXT" FOR APPEND AS 1'], [20, 'N%=N%+1'], [30, 'PRINT#1,"first"'],
+                                  [40, 'PRINT#1,"second"'], [50, 'CLOSE 1'], [60, 'OPEN "LOG.TXT" FOR INPUT AS 1'],
+                                  [70, 'LINE INPUT#1,A$:LINE INPUT#1,B$'], [80, 'CLOSE 1'],
+                                  [90, 'PRINT "read back: ";A$;",";B$']]},
+            {'k': 'resume', 'p': [[10, 'OPEN "E" FOR OUTPUT AS 1:CLOSE'], [20, 'OPEN "E" FOR APPEND AS 1'],
+                                  [30, 'OPEN "O" FOR OUTPUT AS 2'], [40, 'OPEN "R" AS 3 LEN=4:FIELD 3,4 AS R$'],
+                                  [50, 'PRINT#1,"a":PRINT#2,"o":LSET R$="rrrr":PUT 3,2'], [60, 'CLOSE'],
+                                  [70, 'OPEN "E" FOR INPUT AS 1:LINE INPUT#1,A$:PRINT A$;EOF(1):CLOSE']]},
+            {'k': 'reopen', 'mode': 'ab', 'c': [], 'pos': 0, 'junk': [26], 'd': [100, 13, 10]},
+            {'k': 'reopen', 'mode': 'wb', 'c': [], 'pos': 0, 'junk': [26], 'd': [100]},
+            {'k': 'reopen', 'mode': 'ab', 'c': [97, 13, 10], 'pos': 0, 'junk': [26], 'd': [98]},
+            {'k': 'reopen', 'mode': 'rb', 'c': [97, 13, 10, 26], 'pos': 0, 'junk': [], 'd': []},
+            {'k': 'reopen', 'mode': 'r+b', 'c': [1, 2, 3, 4], 'pos': 4, 'junk': [], 'd': [9, 9]},
+            {'k': 'reopen', 'direct': True, 'mode': 'ab', 'pos': -1, 'c': [97, 26]},
+            {'k': 'reopen', 'direct': True, 'mode': 'ab', 'pos': 5, 'c': [97]},
+            {'k': 'reopen', 'direct': True, 'mode': 'wb', 'pos': 5, 'c': [97, 98]},
             # test_pickle's program: suspended inside SYSTEM
             {'k': 'mid', 'p': [[10, 'FOR I%=1 TO 4: SYSTEM: NEXT'], [20, 'PRINT "x" :SYSTEM:PRINT I%']]},
             {'k': 'mid', 'p': [[10, 'IF 1 THEN SYSTEM:A=7'], [20, 'A=A+1:SYSTEM'], [30, "SYSTEM' rem"], [40, 'PRINT A']]},
@@ -395,14 +495,16 @@ class C40(core.Check):
 
     def gen_cases(self, n):
         rng = self.rng
-        hist = {'crc': 0, 'file': 0, 'real': 0, 'resume': 0, 'mid': 0}
+        hist = {'crc': 0, 'file': 0, 'real': 0, 'resume': 0, 'files': 0, 'mid': 0, 'reopen': 0}
         out = []
         thorough = self.tier == 'thorough'
-        n_resume = n // 15 if thorough else max(24, n // 28)
+        n_resume = n // 15 if thorough else max(20, n // 35)
+        n_files = n // 40 if thorough else max(10, n // 70)
+        n_reopen = max(60, n // 12)
         n_file = max(30, n // 12)
         n_real = 6 if thorough else 2
         n_mid = max(10, n // 60)
-        n_crc = max(0, n - n_resume - n_file - n_real - n_mid)
+        n_crc = max(0, n - n_resume - n_files - n_reopen - n_file - n_real - n_mid)
         for _ in range(n_crc):
             b = common.rand_bytes(rng, common.rand_len(rng, 300))
             i = rng.randrange(len(b)) if b else 0
@@ -424,6 +526,23 @@ class C40(core.Check):
         for _ in range(n_resume):
             out.append({'k': 'resume', 'p': [list(x) for x in gen_program(rng)]})
             hist['resume'] += 1
+        for _ in range(n_files):
+            out.append({'k': 'resume', 'p': [list(x) for x in gen_file_program(rng)]})
+            hist['files'] += 1
+        for _ in range(n_reopen):
+            mode = rng.choice(['ab', 'ab', 'wb', 'rb', 'r+b'])
+            c = common.rand_bytes(rng, rng.choice([0, 0, 1, 2, rng.randrange(0, 40)]))
+            if rng.random() < 0.3:
+                # call unpickle_file directly with any position (unknown, zero, inside, at the end, beyond)
+                out.append({'k': 'reopen', 'direct': True, 'mode': mode, 'c': c,
+                            'pos': rng.choice([-1, 0, 0, 1, len(c), len(c) + 1, rng.randrange(0, len(c) + 3)])})
+            else:
+                writable = mode in ('ab', 'wb')
+                out.append({'k': 'reopen', 'mode': mode, 'c': c,
+                            'pos': rng.choice([0, len(c), rng.randrange(0, len(c) + 1)]),
+                            'junk': rng.choice([[26], [26], [], common.rand_bytes(rng, 3)]) if writable else [],
+                            'd': common.rand_bytes(rng, rng.randrange(0, 6)) if mode != 'rb' else []})
+            hist['reopen'] += 1
         for _ in range(n_mid):
             p = [list(x) for x in gen_program(rng, files=False)]
             # put SYSTEM statements into some lines
@@ -563,6 +682,70 @@ class C40(core.Check):
         finally:
             common.rmtree(d)
 
+    # ---- 'reopen' cases: state.pickle_file / state.unpickle_file on real files
+    def _reopen_data(self, case):
+        import importlib
+        state = importlib.import_module('pcbasic.basic.state')
+        d = common.tmpdir('c40o')
+        try:
+            fn = os.path.join(d, 'F.DAT')
+            mode, c = case['mode'], bytes(case['c'])
+
+            def put(data):
+                with open(fn, 'wb') as f:
+                    f.write(data)
+
+            def get():
+                with open(fn, 'rb') as f:
+                    return f.read()
+            if case.get('direct'):
+                put(c)
+                f2 = state.unpickle_file(fn, mode, case['pos'])
+                name, tell = f2.name, f2.tell()
+                f2.close()
+                return {'out': [1 if name == fn else 0, tell] + list(get()), 'fail': None}
+            junk, dd = bytes(case['junk']), bytes(case['d'])
+            pos = case['pos'] if mode in ('rb', 'r+b') else len(c)
+            # the stream as the suspended session holds it
+            if mode == 'wb':
+                f = open(fn, 'wb')
+                f.write(c)
+            elif mode == 'ab':
+                put(c[:case['pos'] % (len(c) + 1)])
+                f = open(fn, 'ab')
+                f.write(c[case['pos'] % (len(c) + 1):])
+            else:
+                put(c)
+                f = open(fn, mode)
+                f.seek(pos)
+            func, args = state.pickle_file(f)
+            f.close()
+            # shutdown of the suspended session (TextFile.close writes the EOF byte) / anything appended later
+            put(c + junk)
+            f2 = func(*args)
+            name, tell = f2.name, f2.tell()
+            f2.close()
+            out = [1 if name == fn else 0, args[2], tell] + list(get())
+            # direct reading of the property: the resumed program's reads/writes continue where they stopped
+            put(c + junk)
+            f3 = func(*args)
+            fail = None
+            if mode == 'rb':
+                rest = f3.read()
+                f3.close()
+                if rest != (c + junk)[pos:]:
+                    fail = 'reopened input file continues with %r, expected %r' % (rest, (c + junk)[pos:])
+            else:
+                f3.write(dd)
+                f3.close()
+                want = c + dd if mode in ('wb', 'ab') else c[:pos] + dd + c[pos + len(dd):]
+                if get() != want:
+                    fail = ('file open for %r with contents %r when pickled, %r appended at shutdown, re-opened by '
+                            'unpickle_file, %r written: file is %r, expected %r' % (mode, c, junk, dd, get(), want))
+            return {'out': out, 'fail': fail}
+        finally:
+            common.rmtree(d)
+
     # ---- 'resume' / 'mid' / 'redo' cases
     def _resume_data(self, case):
         prog = [tuple(x) for x in case['p']]
@@ -685,6 +868,8 @@ class C40(core.Check):
         if k == 'real':
             data = self._cache('real', case, self._real_data)
             return data['codes'] + [len(data['accepted'])]
+        if k == 'reopen':
+            return self._cache('reopen', case, self._reopen_data)['out']
         data = self._cache('resume', case, self._resume_data)
         pts = self._pts_runmode(data)
         return [len(pts)] + [p['ptr_after'] for p in pts]
@@ -705,6 +890,12 @@ class C40(core.Check):
             mods = '[' + ';'.join('(%d,%d)' % (i, v) for i, v in data['mods']) + ']'
             # the trailing 0 is the prediction of C40_any_byte_rejected for the sweep: no alteration accepted
             return '(load_codes %d %s %s [] ++ [0])' % (data['dcode'], core.zl(data['base']), mods)
+        if k == 'reopen':
+            w, a = (1 if 'w' in case['mode'] else 0), (1 if 'a' in case['mode'] else 0)
+            if case.get('direct'):
+                return '(1 :: reopen_out %d %d %s %s)' % (w, a, core.zl([case['pos']])[1:-1], core.zl(case['c']))
+            pos = case['pos'] if case['mode'] in ('rb', 'r+b') else len(case['c'])
+            return '(1 :: %d :: reopen_out %d %d %d %s)' % (pos, w, a, pos, core.zl(case['c'] + case['junk']))
         data = self._cache('resume', case, self._resume_data)
         pts = self._pts_runmode(data)
         if not pts:
@@ -728,6 +919,8 @@ class C40(core.Check):
             return len(case['b']) > 0
         if k in ('file', 'real'):
             return len(out) > 3
+        if k == 'reopen':
+            return True
         return out[0] > 0
 
     def shrink_candidates(self, case):
@@ -764,6 +957,8 @@ class C40(core.Check):
                 return 'session state file with byte %d altered is resumed, not rejected (%d of %d positions)' % (
                     data['accepted'][0], len(data['accepted']), data['swept'])
             return None
+        if k == 'reopen':
+            return self._cache('reopen', case, self._reopen_data)['fail']
         data = self._cache('resume', case, self._resume_data)
         return data['fail']
 
